@@ -1,1 +1,4 @@
+import GwcsProofs.C01
+import GwcsProofs.C07
+import GwcsProofs.C08
 import GwcsProofs.C14
